@@ -112,11 +112,11 @@ def jobs(tier):
     cur = {t['name']: t for t in T.curated()}
     names = ['tb2', 'tbshift', 'tbloop', 'hyb2', 'hyb2pm', 'tb_ev', 'tb_hy', 'ev2', 'evloop', 'weaktb', 'grp_sib', 'grp_out',
              'multi_tb', 'multi_shift', 'multi_shift_rev', 'ent2x', 'ent2hy']
-    three = ['chain3ev', 'fanin', 'tbchain3'] if q else ['chain3ev', 'chain3', 'fanin', 'fanout', 'tbchain3', 'loop3shift', 'weak3', 'nested', 'reenter']
+    three = ['chain3ev', 'fanin', 'tbchain3', 'fanout_shift2', 'fanout_shift2r'] if q else ['chain3ev', 'chain3', 'fanin', 'fanout', 'tbchain3', 'loop3shift', 'weak3', 'nested', 'reenter']
     out = []
     for name in names + three:
         t = cur[name]
-        K = 3 if (name.startswith('tb') and len(t['types']) == 2) else 2
+        K = 3 if ((name.startswith('tb') and len(t['types']) == 2) or name.startswith('fanout_shift2')) else 2
         if not q and len(t['types']) == 2:
             K = 3
         for v in variants(t, tier):
